@@ -15,7 +15,7 @@ import (
 var tokenAlphabet = []string{"(", ")", "{", "}", ",", "_", "==", "!=", "in", "not", "is", "empty", "contains", "matches", "and", "or", "any", "all", "as",
 	"a", "b", "x.y", `a["k"]`, "a.0", `"/p/q"`, `"/p~1q~0"`, `"/a~01b"`, "1", "-1.5", "01", `"s t"`, "`r`", `"`, "[", "]", ".", "/", `"\x41é"`, `""`, "é", "a/b"}
 
-var handCorpus = []string{"a==1", "a == 1", "a == 1 and b == 2", "not a == 1", "(a==1)", "((a==1))", "(((a==1)))", "a", "", "any a as x { x == 1 }",
+var handCorpus = []string{`"/a/./b" == 1`, `"/a/../b" == 1`, `"/./x" is empty`, `"/.." == 1`, `1 in "/a/."`, `"/a/b/../../c" != 1`, `any "/m/." as x { x == 1 }`, `"/a//b" == 1`, `"/a/b/" == 1`, "a==1", "a == 1", "a == 1 and b == 2", "not a == 1", "(a==1)", "((a==1))", "(((a==1)))", "a", "", "any a as x { x == 1 }",
 	"all a as i, v { v == 1 and i != 0 }", "any m as _, v { v.x == 1 }", "all m as k, _ { k matches `^a` }", "( any a as x { x == 1 } ) and b == 2",
 	"a == 1 or b == 2 and not c == 3", "not not a == 1", "not (not a == 1)", "a is empty", "a is not empty", "x in a", "x not in a", "a contains x", "a not contains x",
 	`a matches "^b"`, `a not matches "^b"`, `"/a/b" == 1`, `"" == 5`, `x == "/usr/bin"`, `x == "/a/"`, `x == "a\"b"`, "x == \"a\nb\"", `x == "\'"`, "x == `a\rb`",
